@@ -30,7 +30,7 @@ func startHub(t *testing.T) (*msghub.Hub, context.CancelFunc) {
 func TestVerifSlowListenerStallsHub(t *testing.T) {
 	hub, cancel := startHub(t)
 	defer cancel()
-	_ = newMsgListenerV2(hub, "") // no writer goroutine: nobody drains ml.c
+	_ = newMsgListenerV2(hub, "", 0) // no writer goroutine: nobody drains ml.c
 	for i := 0; i < 101; i++ {
 		hub.Dispatch(event.MessageMetadata{Mailbox: "m", ID: "x"})
 	}
@@ -49,7 +49,7 @@ func TestVerifSlowListenerStallsHub(t *testing.T) {
 func TestVerifCloseWithBufferedEvent(t *testing.T) {
 	hub, cancel := startHub(t)
 	defer cancel()
-	ml := newMsgListenerV2(hub, "")
+	ml := newMsgListenerV2(hub, "", 0)
 	hub.Dispatch(event.MessageMetadata{Mailbox: "m", ID: "1"})
 	hub.Sync()
 	ml.Close()
@@ -77,7 +77,7 @@ func TestVerifSendOnClosedAbortsBroadcast(t *testing.T) {
 		hub.AddListener(other)
 		mls := make([]*msgListenerV1, 0, 8)
 		for i := 0; i < 8; i++ {
-			mls = append(mls, newMsgListenerV1(hub, ""))
+			mls = append(mls, newMsgListenerV1(hub, "", 0))
 		}
 		hub.Sync()
 		// Block the hub so that Dispatch is queued before the RemoveListener ops.
@@ -108,3 +108,43 @@ func (g *gateListener) Receive(msg event.MessageMetadata) error {
 	return nil
 }
 func (g *gateListener) Delete(mailbox, id string) error { return nil }
+
+// History length 0 (INBUCKET_WEB_MONITORHISTORY=0): ring.New(0) is nil and Dispatch/Delete
+// skipped the broadcast altogether, so monitors never saw a live event.
+func TestVerifZeroHistoryStillBroadcasts(t *testing.T) {
+	hub := msghub.New(0, extension.NewHost())
+	ctx, cancel := context.WithCancel(context.Background())
+	defer cancel()
+	go hub.Start(ctx)
+	l := &countListener{n: make(chan int, 10)}
+	hub.AddListener(l)
+	hub.Dispatch(event.MessageMetadata{Mailbox: "m", ID: "1"})
+	hub.Sync()
+	if got := len(l.n); got != 1 {
+		t.Fatalf("listener received %d of 1 live events with history length 0", got)
+	}
+}
+
+// A history longer than the listener's fixed queue: joining must deliver the whole retained
+// history (the queue is sized from the configured history length).
+func TestVerifJoinWithLongHistory(t *testing.T) {
+	const history = 150
+	hub := msghub.New(history, extension.NewHost())
+	ctx, cancel := context.WithCancel(context.Background())
+	defer cancel()
+	go hub.Start(ctx)
+	for i := 0; i < history; i++ {
+		hub.Dispatch(event.MessageMetadata{Mailbox: "m", ID: "x"})
+	}
+	hub.Sync()
+	ml := newMsgListenerV2(hub, "", history) // no writer yet: the replay must fit the queue
+	hub.Sync()
+	select {
+	case <-ml.done:
+		t.Fatalf("listener was dropped while the history was replayed to it (%d of %d events queued)", len(ml.c), history)
+	default:
+	}
+	if got := len(ml.c); got != history {
+		t.Fatalf("joined listener holds %d of %d history events", got, history)
+	}
+}
